@@ -268,6 +268,11 @@ func sourcesOf(v ssa.Value) map[string]bool {
 					return false
 				}
 				out["call:"+n] = true
+			} else {
+				// a call through a local function value chosen among named functions
+				for _, cf := range calleesOf(x.Common()) {
+					out["call:"+FuncName(origin(cf))] = true
+				}
 			}
 			return true
 		}
@@ -335,12 +340,18 @@ func c04DestWins(w *World, r *Report) {
 	// (e) processImportValues: parent's values are the destination of the final merge
 	n = 0
 	for _, c := range callInstrs(piv) {
-		f, _ := calleeOf(c.Common())
-		if f == nil {
+		cands := calleesOf(c.Common())
+		if len(cands) == 0 {
 			continue
 		}
-		name := FuncName(origin(f))
-		if name != "pkg/chart/v2/util.MergeTables" && name != "pkg/chart/v2/util.CoalesceTables" {
+		isMerge := true
+		for _, f := range cands {
+			name := FuncName(origin(f))
+			if name != "pkg/chart/v2/util.MergeTables" && name != "pkg/chart/v2/util.CoalesceTables" {
+				isMerge = false
+			}
+		}
+		if !isMerge {
 			continue
 		}
 		// only the final merges whose result is stored to c.Values
